@@ -5945,8 +5945,26 @@ func (a *Agent) TaskDispatch(RequestID uint32, CommandID uint32, Parser *parser.
 												}
 
 											} else {
-												/* we failed to read from the portfwd */
+												/* we failed to read from the portfwd: the forwarded host is done with
+												 * this connection (or it broke). forget the socket and have the agent
+												 * close its end too, like a socks client that goes away */
 												logger.Error(fmt.Sprintf("Failed to read from socket %08x: %v", SocktID, err))
+
+												if a.PortFwdGet(SocktID) == nil {
+													/* the agent removed the socket itself (that closed our connection) */
+													return
+												}
+
+												a.PortFwdClose(SocktID)
+
+												a.AddJobToQueue(Job{
+													Command: COMMAND_SOCKET,
+													Data: []any{
+														SOCKET_COMMAND_CLOSE,
+														int32(SocktID),
+													},
+												})
+
 												return
 											}
 										}
